@@ -8,6 +8,7 @@ CONSTANTS
   Leaky = FALSE
   Alphabet <- AllCmds
   Kinds <- AllKinds
+  Ctxs <- MainCtx
 SPECIFICATION TraceSpec
 POSTCONDITION Accepted
 CHECK_DEADLOCK FALSE
